@@ -9,6 +9,7 @@ import (
 	"fmt"
 	"os"
 	"path/filepath"
+	"runtime/pprof"
 	"sort"
 	"strconv"
 
@@ -65,10 +66,17 @@ func main() {
 				seed = n
 			}
 		}
+		if pf := os.Getenv("VERIF_PPROF"); pf != "" {
+			f, _ := os.Create(pf)
+			pprof.StartCPUProfile(f)
+			defer pprof.StopCPUProfile()
+		}
 		exe, _ := os.Executable()
 		o := &mon.Options{Tier: tier, Seed: seed, Root: root(), Exe: exe,
 			InProc: os.Getenv("VERIF_INPROC") != "", Verbose: os.Getenv("VERIF_VERBOSE") != ""}
-		os.Exit(mon.Run(c, o))
+		code := mon.Run(c, o)
+		pprof.StopCPUProfile()
+		os.Exit(code)
 	case "replay":
 		if len(os.Args) < 4 {
 			fmt.Println("usage: vcheck replay <property> <path>")
